@@ -38,6 +38,7 @@ ProjChoices(sh) ==
     {<<>>}
     \cup {[j \in 1..Len(sh) |-> IF sh[j] > 1 THEN sh[j] - 1 ELSE 1]}
     \cup {[j \in 1..Len(sh) |-> IF sh[j] > 2 THEN 2 ELSE sh[j]]}
+    \cup {[j \in 1..Len(sh) |-> 1]}   \* down to a single cell (no individuals): first and last entry coincide there
     \cup {sh}                         \* the identity projection, spelled for the axes that remain (their lengths, in their order)
 
 (* an axis list as typed: any order of the same set when PermuteNames, ascending otherwise *)
